@@ -13,7 +13,7 @@
 
   and the code's guards are written as the code has them: `len(x) == 0 or …`, `x.shape == y.shape and
   (0 in x.shape or …)`, `if len(x) == 0: return True`.  `eqR` is the repaired code; `eqPinned` has the ndarray
-  branch of the pinned tree (before fix 6c2066c, finding F6c) with numpy's broadcasting.  The comparison of two
+  branch of the pinned tree (before fix 75a5baf, finding F6c) with numpy's broadcasting.  The comparison of two
   scalars (`x == y` inside `try/except`, NaN test) cannot raise and is `cellEq`; `sorted` on the string keys of the
   universe cannot raise; `bool()` is never applied to an array (every `==` result is reduced by `np.all`).
 -/
@@ -136,7 +136,7 @@ def allPairsR : List (EVal × EVal) → Res Bool
       | .error e => .error e
       | .ok r => .ok (b && r)
 
-/-- the ndarray branch of the PINNED code (before 6c2066c):
+/-- the ndarray branch of the PINNED code (before 75a5baf):
 `type(x) == type(y) and len(x) == len(y) and _eq_attrs(x, y, ['__shape__']) and (0 in x.shape or np.all(veq(x, y)))`
 — `__shape__` does not exist, so shapes are never compared and `veq` broadcasts -/
 def arrPinned (s : List Nat) (xs : List EVal) (t : List Nat) (ys : List EVal) : Res Bool :=
